@@ -33,7 +33,7 @@ THRESHOLDS = {"rel": 1e-10, "fd_rel": 1e-5}
 
 
 def cases(tier, seed):
-    reps = 5 if tier == "quick" else 200
+    reps = 5 if tier == "quick" else 600
     out = []
     for st in ("ito", "stratonovich"):
         for nt in zoo.NOISE_TYPES:
